@@ -196,7 +196,9 @@ func evalAlwaysTrue(n *Node) value {
 var words = []string{"no", "off", "fail", "failed", "disabled", "false", "null", "0", "", "yes", "on", "true", "1", "x",
 	"fails", "nope", "00", "0.0", "enabled", "n", "f", "disable", "nul", "of", "-0", "0 0", "n o", "failed.", "not"}
 
-var pads = []string{"", "", "", " ", "  ", "\t", " \t "}
+// padding of any length is trimmed before the table is consulted: a few long
+// runs (beyond any plausible "short value" shortcut) are part of the alphabet
+var pads = []string{"", "", "", " ", "  ", "\t", " \t ", strings.Repeat(" ", 17), strings.Repeat(" \t", 20), strings.Repeat(" ", 300)}
 
 func genStrOperand(t *rapid.T) *Node {
 	w := rapid.SampledFrom(words).Draw(t, "word")
